@@ -76,7 +76,7 @@ def handle (op : String) (args : List String) (impl : String) : Option Verdict :
     -- the batch the contract receives (and hashes) is the batch that was hashed for signing, in order; signature unchanged
     let m := ps ++ "|" ++ sg
     return ⟨m, impl == m, s!"evmcall:n={min pl.length 3}"⟩
-  | "watchsig", [kind, n, script, gas] => some <| Id.run do
+  | "watchsig", [kind, n, script, gas, _after] => some <| Id.run do
     let some n := n.toNat? | return bad
     let sweeps := items script "/"
     let members := joinOr ((List.range n).map toString) ","
